@@ -29,7 +29,8 @@ impl Case {
 }
 
 fn parse_edges(csv: &str) -> Vec<(String, String)> {
-    csv.lines().filter(|l| !l.trim().is_empty()).filter_map(|l| l.split_once(',').map(|(a, b)| (a.to_string(), b.to_string()))).collect()
+    let unq = |s: &str| s.trim_matches('"').to_string();
+    csv.lines().map(|l| l.trim_end_matches('\r')).filter(|l| !l.trim().is_empty()).filter_map(|l| l.split_once(',').map(|(a, b)| (unq(a), unq(b)))).collect()
 }
 
 pub fn check_case(ctx: &Ctx, st: &mut Stats, c: &Case, tag: &str) {
@@ -86,7 +87,7 @@ pub fn check_case(ctx: &Ctx, st: &mut Stats, c: &Case, tag: &str) {
         }
     }
     let nv = verts.len();
-    if nv > 7 {
+    if nv > 8 {
         return;
     }
     let has = |a: &str, b: &str| edges.iter().any(|(x, y)| x == a && y == b);
@@ -158,19 +159,31 @@ pub fn check_case(ctx: &Ctx, st: &mut Stats, c: &Case, tag: &str) {
     }
 }
 
-fn csv_of(edges: &[(usize, usize)], names: &[&str], rng: Option<&mut Rng>) -> String {
+fn csv_of(edges: &[(usize, usize)], names: &[&str], mut rng: Option<&mut Rng>) -> String {
     let mut lines: Vec<String> = edges.iter().map(|(a, b)| format!("{},{}", names[*a], names[*b])).collect();
-    if let Some(r) = rng {
+    let mut rng2: Option<&mut Rng> = None;
+    if let Some(r) = rng.take() {
         // presentation quirks: duplicates, shuffled rows
         if !lines.is_empty() && r.chance(1, 3) {
             let d = lines[r.usize(lines.len())].clone();
             lines.push(d);
         }
         r.shuffle(&mut lines);
+        rng2 = Some(r);
     }
-    let mut s = lines.join("\n");
-    if !s.is_empty() {
-        s.push('\n');
+    // presentation of the CSV itself: LF or CRLF, with or without a final line terminator, quoted fields
+    let (mut term, mut final_nl, mut quoted) = ("\n", true, false);
+    if let Some(r) = rng2 {
+        term = if r.chance(1, 4) { "\r\n" } else { "\n" };
+        final_nl = !r.chance(1, 5);
+        quoted = r.chance(1, 6);
+    }
+    if quoted {
+        lines = lines.iter().map(|l| l.split(',').map(|f| format!("\"{}\"", f)).collect::<Vec<_>>().join(",")).collect();
+    }
+    let mut s = lines.join(term);
+    if !s.is_empty() && final_nl {
+        s.push_str(term);
     }
     s
 }
@@ -180,16 +193,16 @@ fn all_digraphs(nv: usize) -> Vec<Vec<(usize, usize)>> {
     (0..(1u64 << pairs.len())).map(|m| pairs.iter().enumerate().filter(|(i, _)| (m >> i) & 1 == 1).map(|(_, p)| *p).collect()).collect()
 }
 
-const NAME_SETS: [[&str; 6]; 8] = [
-    ["a", "b", "c", "d", "e", "f"],
-    ["x1", "y_2", "z'", "w", "q9", "_u"],
-    ["é", "λ", "中", "ñ", "ß", "ö"],
-    ["n1", "n2", "n3", "n4", "n5", "n6"],
+const NAME_SETS: [[&str; 8]; 8] = [
+    ["a", "b", "c", "d", "e", "f", "g", "h"],
+    ["x1", "y_2", "z'", "w", "q9", "_u", "k", "m2"],
+    ["é", "λ", "中", "ñ", "ß", "ö", "ü", "å"],
+    ["n1", "n2", "n3", "n4", "n5", "n6", "n7", "n8"],
     // names that collide under naive string concatenation / prefixing
-    ["a", "b", "a_b", "b_a", "a_b_a", "ab"],
-    ["x", "y_z", "x_y", "z", "x_y_z", "_"],
-    ["v", "v_v", "v_", "_v", "vv", "v_v_v"],
-    ["n", "n1", "n10", "n_1", "n_", "n1_0"],
+    ["a", "b", "a_b", "b_a", "a_b_a", "ab", "b_a_b", "a__b"],
+    ["x", "y_z", "x_y", "z", "x_y_z", "_", "y", "x__z"],
+    ["v", "v_v", "v_", "_v", "vv", "v_v_v", "vvv", "v__v"],
+    ["n", "n1", "n10", "n_1", "n_", "n1_0", "n100", "n1_"],
 ];
 
 fn job(ctx: &Ctx, job: usize, jobs: usize, thorough: bool) -> Stats {
@@ -222,7 +235,7 @@ fn job(ctx: &Ctx, job: usize, jobs: usize, thorough: bool) -> Stats {
     // random graphs on 5-6 vertices, with self-loops and both orientations
     let iters = if thorough { 250 } else { 40 };
     for i in 0..iters {
-        let nv = 5 + rng.usize(2);
+        let nv = if thorough && i % 5 == 0 { 7 + rng.usize(2) } else { 5 + rng.usize(2) };
         let dens = 1 + rng.below(4);
         let mut edges = Vec::new();
         for a in 0..nv {
@@ -260,7 +273,7 @@ pub fn run(ctx: &Ctx) -> (Stats, Spec) {
         }
     }
     let spec = Spec {
-        rule: "edge lists: every digraph on 3 vertices (4 vertices: every 4th [quick] / all [thorough]) x {-u} x {-a}, random graphs on 5-6 vertices with self-loops, duplicates, one-directional edges and shuffled rows, empty and complete graphs; vertex names plain, with ' _ digits, non-ASCII, the pair {x, v_x}, and name families that collide under string concatenation / prefixing ({a, b, a_b, b_a, a_b_a}, {v, v_v, v_, _v}, {n, n1, n10, n_1}); input via file or stdin, output via stdout or file. The emitted text is parsed and evaluated by the reference; for EVERY subset of the vertices 'is a model' must equal 'is a (maximum) clique'. distinct = (edge set, flags); non-trivial = at least one edge and one non-adjacent pair.".into(),
+        rule: "edge lists: every digraph on 3 vertices (4 vertices: every 4th [quick] / all [thorough]) x {-u} x {-a}, random graphs on 5-6 (thorough: also 7-8) vertices with self-loops, duplicates, one-directional edges, shuffled rows, LF / CRLF line ends, missing final newline and quoted fields, empty and complete graphs; vertex names plain, with ' _ digits, non-ASCII, the pair {x, v_x}, and name families that collide under string concatenation / prefixing ({a, b, a_b, b_a, a_b_a}, {v, v_v, v_, _v}, {n, n1, n10, n_1}); input via file or stdin, output via stdout or file. The emitted text is parsed and evaluated by the reference; for EVERY subset of the vertices 'is a model' must equal 'is a (maximum) clique'. distinct = (edge set, flags); non-trivial = at least one edge and one non-adjacent pair.".into(),
         assumptions: vec![
             "vertex names are identifiers that are not keywords of the formula language (as the statement says)".into(),
             "adjacency: with -u an edge in either direction; without it both directions must be present; self-loops are ignored".into(),
